@@ -146,6 +146,44 @@ def pax_inputs():
                 if cut < len(whole):
                     out.append(("pax:%s:%s:cut@%d" % (label, fl, cut - base), whole[:cut], []))
                     out.append(("pax:%s:%s:block@%d" % (label, fl, cut - base), whole, [cut, len(whole)]))
+    # records that stop right after the '=' (no value, no newline): the value length the parser derives is zero
+    def rec0(k):
+        body = b" " + k + b"="
+        n = len(body) + 1
+        while len(b"%d" % n) + len(body) != n:
+            n = len(b"%d" % n) + len(body)
+        return b"%d" % n + body
+    for k in (b"path", b"comment", b"size", b"mtime", b"SCHILY.xattr.user.x", b"LIBARCHIVE.xattr.user.x", b"GNU.sparse.map",
+              b"SCHILY.acl.access", b"linkpath", b"hdrcharset", b"SUN.holesdata", b"GNU.sparse.numblocks"):
+        for tail in (b"", b"12 path=abc\n"):
+            records = rec0(k) + tail
+            whole = _tar_header(b"PaxHeader/after.txt", len(records), b"x") + pad(records) + plain + eoa
+            out.append(("pax:no-value:%s:%d" % (k.decode(), len(tail)), whole, []))
+            out.append(("pax:no-value:%s:%d:blocks" % (k.decode(), len(tail)), whole, [512] * (len(whole) // 512 + 2)))
+    return out
+
+def cpio_inputs():
+    """cpio members whose name is as long as the end-of-archive marker ("TRAILER!!!", 10 bytes and a NUL) and whose
+    link target is longer than the reader's copy buffer, delivered in blocks that end inside name and target: the
+    reader looks at the name again after it has fetched the target"""
+    def newc(name, mode, body, ino):
+        n = name + b"\0"
+        o = b"070701" + b"".join(b"%08x" % x for x in (ino, mode, 0, 0, 1, 0, len(body), 0, 0, 0, 0, len(n), 0)) + n
+        o += bytes(-len(o) % 4) + body
+        return o + bytes(-len(o) % 4)
+    def odc(name, mode, body, ino):
+        n = name + b"\0"
+        return b"070707" + b"%06o%06o%06o%06o%06o%06o%06o%011o%06o%011o" % (1, ino, mode, 0, 0, 1, 0, 0, len(n), len(body)) + n + body
+    out = []
+    for fmt, mk in (("newc", newc), ("odc", odc)):
+        for nm in (b"abcdefghij", b"TRAILER!!?", b"ab"):
+            for tl in (11, 5000, 70000, 300000):
+                arc = (mk(b"f", 0o100644, b"hello", 1) + mk(nm, 0o120777, (b"TRAILER!!!/" * (tl // 11 + 1))[:tl], 2)
+                       + mk(b"g", 0o100644, b"world", 3) + mk(b"TRAILER!!!", 0, b"", 0))
+                for bs in (0, 512, 120, 7):
+                    if bs == 7 and tl > 70000:
+                        continue
+                    out.append(("cpio:%s:%s:target%d" % (fmt, nm.decode(), tl), arc, [bs] * (len(arc) // bs + 2) if bs else []))
     return out
 
 def run_resilient(rep, exe, cases, meta, per_batch_timeout):
@@ -240,6 +278,9 @@ def run(rep):
         rcases.append(readcore.read_case(data, source=(0,), rplan=[512] * (len(data) // 512 + 2), consume=(0, 4096, 0)))
         meta.append((name, "intact", 512, (0, 4096, 0)))
     for name, data, plan in pax_inputs():
+        rcases.append(readcore.read_case(data, source=(0,), rplan=plan, consume=(0, 4096, 0)))
+        meta.append((name, "crafted", plan[0] if plan else 0, (0, 4096, 0)))
+    for name, data, plan in cpio_inputs():
         rcases.append(readcore.read_case(data, source=(0,), rplan=plan, consume=(0, 4096, 0)))
         meta.append((name, "crafted", plan[0] if plan else 0, (0, 4096, 0)))
     for name, data in multiframe_inputs(mk, arcs):
